@@ -60,9 +60,11 @@ func TestGateStress(t *testing.T) {
 			script = append(script, []int{0, 1, 2, 3, 4}[r.intn(5)])
 		}
 		var lm core.Limiter
+		var direct *strategy.PreciseStrategy
 		switch kind {
 		case "precise-direct":
-			lm = &strategyLimiter{strategy.NewPreciseStrategy(lim)}
+			direct = strategy.NewPreciseStrategy(lim)
+			lm = &strategyLimiter{direct}
 		default:
 			var st core.Strategy
 			if kind == "default+simple" {
@@ -95,6 +97,14 @@ func TestGateStress(t *testing.T) {
 				for i := 0; i < ops; i++ {
 					if gr.chance(1, 3) {
 						runtime.Gosched()
+					}
+					if direct != nil && gr.chance(1, 8) {
+						// the strategy's limit moves while tokens are out (used directly: SetLimit is a public call)
+						v := gr.between(0, 5)
+						end := begin("set", v)
+						direct.SetLimit(v)
+						end(true)
+						continue
 					}
 					if len(mine) > 0 && gr.chance(1, 2) {
 						l := mine[len(mine)-1]
